@@ -40,10 +40,18 @@ def exhaustive(tier):
 
 
 def required(tier):
-    return ["first_import", "ordered_pair", "longer_order", "started_with_python_-c", "started_as_script_file"]
+    return ["first_import", "ordered_pair", "longer_order", "started_with_python_-c", "started_as_script_file"] + \
+        ["options:" + " ".join(f) for f in FLAGSETS]
 
 
-def all_orders(tier: str, seed: int) -> list[list[str]]:
+OWN_CONFIGS = True  # the runner's interpreter-configuration clones do not apply: this check starts its own interpreters
+# interpreter options under which "a fresh interpreter" is started besides the default: optimised (asserts and `if __debug__:`
+# blocks vanish; docstrings too), isolated (no PYTHON* variables, no script directory on sys.path), without `site`.
+# A flagged run is compared with a reference run under THE SAME options: the property is about import order, not about options.
+FLAGSETS = [["-O"], ["-OO"], ["-I"], ["-S"]]
+
+
+def all_orders(tier: str, seed: int) -> list[tuple[list[str], list[str]]]:
     mods = modules()
     orders = [[m] for m in mods]
     orders += [[a, b] for a, b in itertools.permutations(mods, 2)]
@@ -52,25 +60,31 @@ def all_orders(tier: str, seed: int) -> list[list[str]]:
     for i in range(n_long):
         k = rng.choice([3, 4, 5, len(mods), len(mods)])
         orders.append(rng.sample(mods, k))
-    return orders
+    out = [(o, []) for o in orders]
+    pairs = [[a, b] for a, b in itertools.permutations(mods, 2)]
+    for fl in FLAGSETS:
+        out += [([m], fl) for m in mods]
+        out += [(p, fl) for p in (rng.sample(pairs, min(20, len(pairs))) if tier == "quick" else pairs)]
+    return out
 
 
 def shards(tier, seed):
     orders = all_orders(tier, seed)
     n = 16
-    return [{"name": f"orders-{i}", "orders": orders[i::n], "offset": i, "stride": n} for i in range(n)]
+    return [{"name": f"orders-{i}", "orders": [o for o, _ in orders[i::n]], "flags": [f for _, f in orders[i::n]], "offset": i, "stride": n}
+            for i in range(n)]
 
 
 _SRC = None
 
 
-def run_child(steps, mods, timeout=120, dash_c=True):
+def run_child(steps, mods, timeout=120, dash_c=True, pyflags=()):
     # `python -c <program>`: the interpreter has no main FILE (no __main__.__file__), exactly like `python -c 'import chartparse.x'`;
     # every fourth-or-so order is also run as a script file
     global _SRC
     if _SRC is None:
         _SRC = open(CHILD).read()
-    head = [env.PY, "-X", "faulthandler"] + (["-c", _SRC] if dash_c else [CHILD])
+    head = [env.PY, "-X", "faulthandler", *pyflags] + (["-c", _SRC] if dash_c else [CHILD])
     p = subprocess.run(head + [env.REPO, json.dumps({"steps": steps, "modules": mods})],
                        capture_output=True, text=True, timeout=timeout,
                        env={"PYTHONHASHSEED": "0", "PYTHONDONTWRITEBYTECODE": "1", "PATH": os.environ.get("PATH", "")},
@@ -81,9 +95,9 @@ def run_child(steps, mods, timeout=120, dash_c=True):
     return json.loads(line[-1])
 
 
-def reference(mods):
+def reference(mods, pyflags=()):
     """chart first (the order the pinned tree supports), then everything sorted."""
-    return run_child([["import", "chart", None]], mods)
+    return run_child([["import", "chart", None]], mods, pyflags=pyflags)
 
 
 def pick_name(ref_snapshot, mod):
@@ -94,7 +108,7 @@ def pick_name(ref_snapshot, mod):
     return sorted(names)[0] if names else None
 
 
-def judge(order, idx, mods, ref, rec):
+def judge(order, idx, mods, ref, rec, pyflags=()):
     steps = []
     for j, m in enumerate(order):
         form = FORMS[(idx + j) % len(FORMS)]
@@ -105,11 +119,12 @@ def judge(order, idx, mods, ref, rec):
                 form = "import"
         steps.append([form, m, name])
     dash_c = idx % 4 != 3
-    out = run_child(steps, mods, dash_c=dash_c)
-    case = {"steps": steps, "modules": mods, "dash_c": dash_c}
+    out = run_child(steps, mods, dash_c=dash_c, pyflags=pyflags)
+    case = {"steps": steps, "modules": mods, "dash_c": dash_c, "pyflags": list(pyflags)}
     rec.cls("started_with_python_-c" if dash_c else "started_as_script_file")
+    rec.cls("options:" + (" ".join(pyflags) or "default"))
     rec.ev()
-    rec.key(steps)
+    rec.key([steps, list(pyflags)])
     rec.cls("first_import" if len(order) == 1 else "ordered_pair" if len(order) == 2 else "longer_order")
     rec.cls(f"form:{steps[0][0]}")
     if out.get("crashed"):
@@ -143,23 +158,29 @@ def judge(order, idx, mods, ref, rec):
 def run_shard(shard, rec, tier, seed):
     mods = modules()
     rec.mon("modules", 0)
-    ref = reference(mods)
-    if ref.get("crashed") or ref.get("failed"):
-        # even the reference order fails: every order is judged on exit status alone
-        rec.diag(f"reference order (chart first) failed: {ref}")
-        ref = None
+    refs = {}
+    flags = shard.get("flags") or [[] for _ in shard["orders"]]
     for k, order in enumerate(shard["orders"]):
-        judge(order, shard["offset"] + k * shard["stride"], mods, ref, rec)
+        fl = tuple(flags[k])
+        if fl not in refs:
+            ref = reference(mods, fl)
+            if ref.get("crashed") or ref.get("failed"):
+                # even the reference order fails: every order is judged on exit status alone
+                rec.diag(f"reference order (chart first) failed under options {list(fl)}: {ref}")
+                ref = None
+            refs[fl] = ref
+        judge(order, shard["offset"] + k * shard["stride"], mods, refs[fl], rec, fl)
         if rec.full:
             break
 
 
 def replay(case, rec):
     mods = case["modules"]
-    ref = reference(mods)
+    fl = tuple(case.get("pyflags") or ())
+    ref = reference(mods, fl)
     if ref.get("crashed") or ref.get("failed"):
         ref = None
-    out = run_child(case["steps"], mods, dash_c=case.get("dash_c", True))
+    out = run_child(case["steps"], mods, dash_c=case.get("dash_c", True), pyflags=fl)
     rec.ev()
     if out.get("crashed"):
         rec.violation("interpreter-crashed", str(out), case, "import-crash")
